@@ -52,10 +52,14 @@ struct Spawn {
 #[derive(Clone, Debug, PartialEq)]
 struct TaskSpec {
     /// 0 = named top-level function, 1 = inline lambda written at every site, 2 = letrec closure
-    /// with a local counter made by a maker function (scheduled once, inside the maker)
+    /// with a local counter made by a maker function (scheduled inside the maker), 3 = a closure
+    /// VALUE bound by a global `let` / `letrec` (every site passes the same closure)
     form: u8,
     chain: Option<Chain>,
     spawns: Vec<Spawn>,
+    /// form 2 only: further `g@time` inside the maker, i.e. the SAME closure scheduled again
+    /// (time, literal time instead of `now + time`, via)
+    starts: Vec<(f64, bool, u8)>,
 }
 
 /// a scheduling site at global scope; for maker tasks this is the maker call (the `@` is inside)
@@ -100,6 +104,7 @@ impl Spec {
                 "form": t.form,
                 "chain": t.chain.as_ref().map(|c| json!({"p": c.p, "abs": c.abs, "limit": c.limit, "via": c.via})),
                 "spawns": t.spawns.iter().map(|s| json!({"to": s.to, "d": s.d, "on": s.on, "via": s.via})).collect::<Vec<_>>(),
+                "starts": t.starts.iter().map(|(t, a, v)| json!([t, a, v])).collect::<Vec<_>>(),
             })).collect::<Vec<_>>(),
             "globals": self.globals.iter().map(|s| json!({"task": s.task, "abs": s.abs, "t": s.t, "via": s.via})).collect::<Vec<_>>(),
             "dsps": self.dsps.iter().map(|s| json!({"every": s.every, "at": s.at, "task": s.task, "d": s.d, "via": s.via})).collect::<Vec<_>>(),
@@ -123,7 +128,12 @@ impl Spec {
                     spawns.push(Spawn { to: s.get("to")?.as_u64()? as usize, d: s.get("d")?.as_f64()?, on: s.get("on").and_then(opt_u), via: s.get("via").and_then(|x| x.as_u64()).unwrap_or(0) as u8 });
                 }
             }
-            tasks.push(TaskSpec { form: t.get("form").and_then(|x| x.as_u64()).unwrap_or(0) as u8, chain, spawns });
+            let starts: Vec<(f64, bool, u8)> = t
+                .get("starts")
+                .and_then(|x| x.as_array())
+                .map(|a| a.iter().filter_map(|e| Some((e.get(0)?.as_f64()?, e.get(1)?.as_bool()?, e.get(2)?.as_u64()? as u8))).collect())
+                .unwrap_or_default();
+            tasks.push(TaskSpec { form: t.get("form").and_then(|x| x.as_u64()).unwrap_or(0) as u8, chain, spawns, starts });
         }
         let mut globals = vec![];
         if let Some(a) = v.get("globals").and_then(|x| x.as_array()) {
@@ -151,8 +161,14 @@ impl Spec {
         }
         let okf = |x: f64| x.is_finite() && x >= 0.0 && x < 1e15;
         for (i, t) in self.tasks.iter().enumerate() {
-            if t.form > 2 {
+            if t.form > 3 {
                 return Err("form".into());
+            }
+            if t.form != 2 && !t.starts.is_empty() {
+                return Err("starts-only-in-makers".into());
+            }
+            if t.starts.iter().any(|(x, _, v)| !okf(*x) || *x < 1.0 || *v > 2) {
+                return Err("start-time".into());
             }
             if let Some(c) = &t.chain {
                 if t.form == 1 {
@@ -230,6 +246,8 @@ struct Sim {
     fractional: bool,
     max_chain: u32,
     fanout: bool,
+    /// two pending instances of one closure-valued task (forms 2, 3) for the same sample
+    same_closure_same_sample: bool,
     far_future: bool,
     max_pending: usize,
     /// the WASM runtime can be expected to agree (see KF_WASM_TICK_CLOSURE)
@@ -264,6 +282,9 @@ impl<'a> Model<'a> {
             0 => self.sim.sched_global += 1,
             1 => self.sim.sched_dsp += 1,
             _ => self.sim.sched_task += 1,
+        }
+        if self.s.tasks[task].form >= 2 && self.pending.iter().any(|i| i.when == when && i.task == task) {
+            self.sim.same_closure_same_sample = true;
         }
         self.pending.push(Inst { when, task, tick: origin != 0, depth });
         self.sim.max_pending = self.sim.max_pending.max(self.pending.len());
@@ -330,6 +351,9 @@ fn simulate(s: &Spec) -> Result<Sim, String> {
             m.tt[g.task] = g.t;
         }
         m.schedule(0, time, g.task, 0, 1)?;
+        for (t, _, _) in &s.tasks[g.task].starts {
+            m.schedule(0, *t, g.task, 0, 1)?;
+        }
     }
     for t in 0..s.n {
         if m.pending.iter().any(|i| i.when < t) {
@@ -468,9 +492,19 @@ impl<'a> Rend<'a> {
                 2 => {
                     let g = s.globals.iter().find(|g| g.task == i).unwrap();
                     let time = if g.abs { num(g.t) } else { format!("now + {}", num(g.t)) };
-                    let first = self.site_named("g", &time, g.via, g.abs);
+                    let mut first = self.site_named("g", &time, g.via, g.abs);
+                    for (t, abs, via) in &t.starts {
+                        let time = if *abs { num(*t) } else { format!("now + {}", num(*t)) };
+                        first.push_str("\n    ");
+                        first.push_str(&self.site_named("g", &time, *via, *abs));
+                    }
                     let body = self.body(i, "        ");
                     o.push_str(&format!("fn mk{i}(){{\n    let x = 0.0\n    letrec g = | |{{\n{body}\n    }}\n    {first}\n    | |{{ x }}\n}}\n"));
+                }
+                3 => {
+                    let body = self.body(i, "    ");
+                    let kw = if t.chain.is_some() { "letrec" } else { "let" };
+                    o.push_str(&format!("{kw} t{i} = | |{{\n{body}\n}}\n"));
                 }
                 _ => {}
             }
@@ -721,6 +755,9 @@ fn finish(s: &Spec, cx: &Cx, mode: &str) -> CaseResult {
     if sim.far_future {
         cl.push("beyond-run-length".into());
     }
+    if sim.same_closure_same_sample {
+        cl.push("same-closure-twice-at-one-sample".into());
+    }
     if s.dsps.iter().any(|d| d.every) {
         cl.push("dsp-schedules-every-sample".into());
     }
@@ -731,7 +768,10 @@ fn finish(s: &Spec, cx: &Cx, mode: &str) -> CaseResult {
         cl.push("wasm-checked-with-tick-origin".into());
     }
     for (i, t) in s.tasks.iter().enumerate() {
-        cl.push(["form:named", "form:inline-lambda", "form:letrec-closure"][t.form as usize].to_string());
+        cl.push(["form:named", "form:inline-lambda", "form:letrec-closure", "form:global-closure-value"][t.form as usize].to_string());
+        if !t.starts.is_empty() {
+            cl.push("maker-closure-scheduled-again".to_string());
+        }
         if s.abs_chain(i) {
             cl.push("chain:absolute-time".into());
         }
@@ -817,8 +857,8 @@ fn gen_spec(g: &mut Gen, tier: Tier) -> Spec {
     for i in 0..nt {
         let t = g.span(|g| {
             let mut form = match profile {
-                1 => g.weighted(&[6, 3, 0]),
-                _ => g.weighted(&[6, 2, 2]),
+                1 => g.weighted(&[6, 3, 0, 3]),
+                _ => g.weighted(&[6, 2, 2, 3]),
             } as u8;
             let want_chain = match profile {
                 0 => g.bool(1, 2),
@@ -836,7 +876,7 @@ fn gen_spec(g: &mut Gen, tier: Tier) -> Spec {
             } else {
                 None
             };
-            TaskSpec { form, chain, spawns: vec![] }
+            TaskSpec { form, chain, spawns: vec![], starts: vec![] }
         });
         tasks.push(t);
     }
@@ -879,6 +919,14 @@ fn gen_spec(g: &mut Gen, tier: Tier) -> Spec {
             let t = gen_time(g, &mut used_times);
             let abs = s.abs_chain(i) || g.bool(4, 5);
             sites.push(GSite { task: i, abs, t, via: gen_via(g) });
+            // the same maker closure scheduled again, half of the time for the very same sample
+            if s.tasks[i].form == 2 && profile != 2 && g.bool(1, 3) {
+                let k = g.int(1, 2) as usize;
+                for _ in 0..k {
+                    let t2 = if g.coin() { t } else { gen_time(g, &mut used_times) };
+                    s.tasks[i].starts.push((t2, g.bool(4, 5), gen_via(g)));
+                }
+            }
         }
     }
     let free: Vec<usize> = (0..nt).filter(|i| s.tasks[*i].form != 2 && !s.abs_chain(*i)).collect();
@@ -930,8 +978,8 @@ const GRID_TIMES: [f64; 6] = [1.0, 1.5, 2.0, 2.999, 3.0, 4.25];
 fn grid_spec(index: u64) -> Spec {
     let k = GRID_TIMES.len() as u64;
     let (a, b, c) = (index % k, (index / k) % k, (index / (k * k)) % k);
-    let leaf = TaskSpec { form: 0, chain: None, spawns: vec![] };
-    let chain = TaskSpec { form: 0, chain: Some(Chain { p: 1.0, abs: false, limit: Some(3), via: 0 }), spawns: vec![] };
+    let leaf = TaskSpec { form: 0, chain: None, spawns: vec![], starts: vec![] };
+    let chain = TaskSpec { form: 0, chain: Some(Chain { p: 1.0, abs: false, limit: Some(3), via: 0 }), spawns: vec![], starts: vec![] };
     Spec {
         n: 8,
         mono: (a + b + c) % 2 == 0,
@@ -996,6 +1044,11 @@ fn shrink_spec(s: &Spec) -> Vec<Spec> {
             o.tasks[i].chain = None;
             out.push(o);
         }
+        for k in 0..s.tasks[i].starts.len() {
+            let mut o = s.clone();
+            o.tasks[i].starts.remove(k);
+            out.push(o);
+        }
     }
     for k in (0..s.tasks.len()).rev() {
         out.extend(drop_task(s, k));
@@ -1014,6 +1067,7 @@ fn shrink_spec(s: &Spec) -> Vec<Spec> {
         if t.form != 0 {
             let mut o = s.clone();
             o.tasks[i].form = 0;
+            o.tasks[i].starts.clear();
             out.push(o);
         }
         if let Some(c) = &t.chain {
@@ -1116,7 +1170,7 @@ impl Prop for C11 {
         }
     }
     fn rule(&self) -> String {
-        "A case is a task multiset: up to 8 task definitions (named function / inline lambda / letrec closure with a local counter made by a maker function), each with an optional self-rescheduling chain (period >= 1, `now + p` or an accumulating absolute-time variable, optionally bounded by the task's own run count) and up to 3 spawns of later tasks (delay >= 1, optionally only on the k-th run); scheduling sites at global scope (up to 40, thorough 150; literal or `now + t` times, equal times reused on purpose, fractional parts, times at or beyond the run length, order permuted), in dsp (`if (now == s) {..}` or on every sample) and in running tasks; three syntactic forms (`f@t`, `_mimium_schedule_at(t, f)`, `| |{ f() }@t`). Effects are commutative: each task increments its own counter and adds its own power of two to a shared accumulator; dsp returns the accumulator (one channel) or the tuple of counters. Every scheduled time truncates to a sample later than the current one (documented precondition). Oracle: a reference schedule model (multiset of pending (floor(time), task); at sample t, before dsp, every task with floor(time) == t runs exactly once, what it schedules joins the multiset) gives the expected output words of every sample; the VM must equal the model bit for bit, the WASM runtime must equal the VM; a panic of either runtime is a failure. Non-trivial = >= 3 task runs, >= 2 runs at one sample, and a rescheduling chain of length >= 3; distinct by source + run length. Run length 8..64 samples (thorough: up to 200).".into()
+        "A case is a task multiset: up to 8 task definitions (named function / inline lambda / letrec closure with a local counter made by a maker function, which may schedule that same closure several times, also for one sample / a closure VALUE bound by a global let or letrec, so that every site passes the same closure), each with an optional self-rescheduling chain (period >= 1, `now + p` or an accumulating absolute-time variable, optionally bounded by the task's own run count) and up to 3 spawns of later tasks (delay >= 1, optionally only on the k-th run); scheduling sites at global scope (up to 40, thorough 150; literal or `now + t` times, equal times reused on purpose, fractional parts, times at or beyond the run length, order permuted), in dsp (`if (now == s) {..}` or on every sample) and in running tasks; three syntactic forms (`f@t`, `_mimium_schedule_at(t, f)`, `| |{ f() }@t`). Effects are commutative: each task increments its own counter and adds its own power of two to a shared accumulator; dsp returns the accumulator (one channel) or the tuple of counters. Every scheduled time truncates to a sample later than the current one (documented precondition). Oracle: a reference schedule model (multiset of pending (floor(time), task); at sample t, before dsp, every task with floor(time) == t runs exactly once, what it schedules joins the multiset) gives the expected output words of every sample; the VM must equal the model bit for bit, the WASM runtime must equal the VM; a panic of either runtime is a failure. Non-trivial = >= 3 task runs, >= 2 runs at one sample, and a rescheduling chain of length >= 3; distinct by source + run length. Run length 8..64 samples (thorough: up to 200).".into()
     }
     fn assumptions(&self) -> Vec<String> {
         vec![
@@ -1128,6 +1182,6 @@ impl Prop for C11 {
         ]
     }
     fn required_classes(&self, _tier: Tier) -> Vec<&'static str> {
-        vec!["origin:global", "origin:dsp", "origin:task", "equal-times", "fractional-time", "chain>=3", "fanout", "out:mono", "out:tuple", "wasm:agrees", "wasm-checked-with-tick-origin", "beyond-run-length", "via:at", "via:schedule_at", "via:wrapper-lambda", "form:named", "form:inline-lambda", "form:letrec-closure", "chain:absolute-time", "chain:bounded", "dsp-schedules-every-sample", "pending>=10", "chain>=16"]
+        vec!["origin:global", "origin:dsp", "origin:task", "equal-times", "fractional-time", "chain>=3", "fanout", "out:mono", "out:tuple", "wasm:agrees", "wasm-checked-with-tick-origin", "beyond-run-length", "via:at", "via:schedule_at", "via:wrapper-lambda", "form:named", "form:inline-lambda", "form:letrec-closure", "form:global-closure-value", "maker-closure-scheduled-again", "same-closure-twice-at-one-sample", "chain:absolute-time", "chain:bounded", "dsp-schedules-every-sample", "pending>=10", "chain>=16"]
     }
 }
